@@ -283,13 +283,13 @@ def run_np_balance(ctx, lits=()):
         if a_line == 'bad-op' or b_line == 'bad-op':
             ctx.disagree(st, sig, 'numpy', 'bad-op', '')
             continue
-        got_asym = np.array([float(Fraction(x)) for x in a_line.split()])
+        got_asym = np.array([common.fracf(x) for x in a_line.split()])
         want_bal = np_balance(t, wa, ya, ma)       # dyadic tau: exact in doubles
         ctx.count('np.balance tau', 'extreme/literal' if (t < 0.005 or t > 0.995) else 'moderate')
         if tau.denominator <= 2 ** 20:
-            bal_ok = float(Fraction(b_line)) == want_bal
+            bal_ok = common.fracf(b_line) == want_bal
         else:
-            bal_ok = abs(float(Fraction(b_line)) - want_bal) <= 1e-13 * (float(np.sum(wa * np.abs(ya - ma))) + 1.0)
+            bal_ok = abs(common.fracf(b_line) - want_bal) <= 1e-13 * (float(np.sum(wa * np.abs(ya - ma))) + 1.0)
         if not np.array_equal(got_asym, want_asym) or not bal_ok:
             ctx.disagree(st, sig, [want_asym.tolist(), want_bal], [got_asym.tolist(), b_line], 'model asym/balance differs from NumPy')
 
@@ -437,7 +437,7 @@ def run_balance(ctx, pygam, idxs=None, lits=()):
         if line == 'bad-op':
             ctx.disagree(st, sig, bal, 'bad-op', '')
             continue
-        mb = float(Fraction(line))
+        mb = common.fracf(line)
         # the model's exact balance at the observed residuals: equals NumPy's up to summation rounding, and the ridge term (theorem)
         if abs(mb - bal) > 1e-10 * scale or abs(mb - SQRT_EPS * b0) > 1e-7 * scale:
             ctx.disagree(st, sig, dict(numpy=bal, ridge=SQRT_EPS * b0), mb, 'model balance vs observed (scale %g)' % scale)
